@@ -700,6 +700,41 @@ class ValueSlice:
             return list(cands)
         return []
 
+    def _instance_class(self, fa: FA, e, at, depth=0):
+        """The class of this repository an expression is a fresh instance of: `Reader(...)`, or a local bound to one."""
+        if depth > 4 or e is None:
+            return None
+        if isinstance(e, ast.Call):
+            f = e.func
+            if isinstance(f, ast.Name) and f.id in fa.fi.module.classes:
+                return fa.fi.module.classes[f.id]
+            try:
+                cands, how = self.ck.cg.resolve(e, fa.fi)
+            except Exception:  # noqa
+                return None
+            if how == "ctor" and cands and cands[0].cls is not None:
+                return cands[0].cls
+            return None
+        if isinstance(e, ast.Name) and fa.df.is_local(e.id):
+            ds = fa.df.reaching(at, e.id)
+            if len(ds) == 1 and ds[0].kind in ("assign", "with") and ds[0].value is not None:
+                return self._instance_class(fa, ds[0].value, ds[0].node, depth + 1)
+        return None
+
+    def _method_of_instance(self, fa: FA, call, at):
+        """`Reader(...)(x)` / `reader(x)` / `reader.read(x)` with `reader = Reader(...)`: the method that runs."""
+        f = call.func
+        c = self._instance_class(fa, f, at)
+        if c is not None:
+            m = self.ck.repo.find_method(c, "__call__")
+            return [m] if m is not None else []
+        if isinstance(f, ast.Attribute):
+            c = self._instance_class(fa, f.value, at)
+            if c is not None:
+                m = self.ck.repo.find_method(c, f.attr)
+                return [m] if m is not None else []
+        return []
+
     def _function_value(self, fa: FA, n):
         """The repository function an expression that is not called on the spot designates (`self._read`, `_load`)."""
         cls = fa.fi.cls
@@ -819,6 +854,22 @@ class ValueSlice:
                 self.stopped.append((fa, e))
                 return
             callees = self._callees(fa, e)
+            if not callees:
+                via = self._method_of_instance(fa, e, at)
+                if via:
+                    # the object is part of the flow (what it was built from), then what its method hands back
+                    self._expr(fa, e.func.value if isinstance(e.func, ast.Attribute) else e.func, at, stack, hit)
+                    for fi in via:
+                        used = self._results_of(fi, stack)
+                        bound = self._bind(fi, ast.Call(func=ast.Attribute(value=ast.Name(id="_", ctx=ast.Load()), attr=fi.name, ctx=ast.Load()),
+                                                       args=e.args, keywords=e.keywords))
+                        for p_, a in (bound or {}).items():
+                            if bound is None or p_ in used or p_ not in fi.params:
+                                self._expr(fa, a, at, stack, hit)
+                        if bound is None:
+                            for a in list(e.args) + [k.value for k in e.keywords]:
+                                self._expr(fa, a.value if isinstance(a, ast.Starred) else a, at, stack, hit)
+                    return
             if callees:
                 recv = e.func.value if isinstance(e.func, ast.Attribute) else None
                 own = isinstance(recv, ast.Name) and recv.id in ("self", "cls") or \
